@@ -137,7 +137,7 @@ func c17FieldModulus(gi *GroupInfo) *big.Int {
 	case "bn254":
 		return modelBN254.P
 	case "qr512":
-		return new(big.Int).Add(new(big.Int).Lsh(gi.Order, 1), big1)
+		return gi.Modulus
 	}
 	return gi.Order
 }
@@ -147,7 +147,7 @@ func c17FirstTryBytes(gi *GroupInfo) int {
 	case "p256":
 		return 33
 	case "qr512":
-		return 64
+		return gi.G.PointLen()
 	}
 	return gi.G.PointLen()
 }
